@@ -11,7 +11,8 @@ EXPLANATION = (
     'of Redirect::handle increments a counter on every cycle and leaves when it reaches self.attempts, probes are clones and the '
     'final next.run receives the original request; R16.e the Client handed to middleware has an empty stack; R16.f every write '
     'of the request URL in the redirect loop is preceded, in the same iteration, by an update of the base used for joining '
-    'relative locations. Decides these shapes, not URL resolution inside the url crate.')
+    'relative locations; R16.g the set of statuses followed as redirects, read from the table or match that guards the Location branch, is exactly '
+    '301, 302, 303, 307, 308. Decides these shapes, not URL resolution inside the url crate.')
 
 
 def coroutine_body(crate, fn_pattern, **kw):
